@@ -138,4 +138,110 @@ def acceptVerbatim (cfg : Config) (f : File) (out : Txt) : String :=
     if declTexts ls != f.functions.map (fun fn => squash fn.stub) then "bad-declaration-text"
     else "ok"
 
+/-! ### The configuration layer: `build.NewFlags(fs)`, `fs.Parse(args)`, `Flags.Config()`
+
+The stub file a user gets is written by `build.Generate` / `build.Main` under
+the configuration the command line yields.  Modelled: the flag syntax of the
+standard `flag` package for the flags avo registers (`-pkg`, `-out`, `-stubs`,
+`-log`, `-cpuprofile`, boolean `-e`), last occurrence wins; the package name
+(`-pkg` when given and non-empty, otherwise the base name of the working
+directory — the documented default); where each output goes. -/
+
+inductive Dest where
+  | none
+  | stdout
+  | file (name : Txt)
+  deriving Repr, DecidableEq
+
+structure CliFlags where
+  pkg : Txt
+  out : Dest
+  stubs : Dest
+  deriving Repr, DecidableEq
+
+/-- `NewFlags`: assembly to standard output, no stub file, no package name. -/
+def CliFlags.init : CliFlags := ⟨[], .stdout, .none⟩
+
+/-- `outputValue.Set`: `-` is standard output. -/
+def destOf (v : Txt) : Dest := if v = ['-'] then .stdout else .file v
+
+def fPkg : Txt := ['p', 'k', 'g']
+def fOut : Txt := ['o', 'u', 't']
+def fStubs : Txt := ['s', 't', 'u', 'b', 's']
+def fLog : Txt := ['l', 'o', 'g']
+def fCpuprofile : Txt := ['c', 'p', 'u', 'p', 'r', 'o', 'f', 'i', 'l', 'e']
+
+/-- `Flag.Value.Set` of the non-boolean flags; `none`: flag provided but not defined. -/
+def setFlag (fl : CliFlags) (name value : Txt) : Option CliFlags :=
+  if name = fPkg then some { fl with pkg := value }
+  else if name = fOut then some { fl with out := destOf value }
+  else if name = fStubs then some { fl with stubs := destOf value }
+  else if name = fLog || name = fCpuprofile then some fl
+  else none
+
+/-- `strconv.ParseBool`. -/
+def isBoolLit (v : Txt) : Bool :=
+  ["1", "t", "T", "TRUE", "true", "True", "0", "f", "F", "FALSE", "false", "False"].any (fun s => s.toList == v)
+
+inductive ArgKind where
+  | stop                -- not a flag, or the terminator `--`: parsing ends
+  | bad                 -- bad flag syntax
+  | flag (name : Txt)   -- what follows the one or two minus signs
+  deriving Repr, DecidableEq
+
+def argKind : Txt → ArgKind
+  | '-' :: '-' :: [] => .stop
+  | '-' :: '-' :: c :: r => if c = '-' || c = '=' then .bad else .flag (c :: r)
+  | '-' :: c :: r => if c = '=' then .bad else .flag (c :: r)
+  | _ => .stop
+
+/-- `name=value`: split at the first `=` (never the first character). -/
+def splitEq : Txt → Txt × Option Txt
+  | [] => ([], none)
+  | c :: r =>
+    match r.span (· != '=') with
+    | (a, []) => (c :: a, none)
+    | (a, _ :: v) => (c :: a, some v)
+
+/-- `flag.FlagSet.Parse` on the flags of `build.NewFlags`; `none` = error. -/
+def parseArgs : List Txt → CliFlags → Option CliFlags
+  | [], fl => some fl
+  | s :: rest, fl =>
+    match argKind s with
+    | .stop => some fl
+    | .bad => none
+    | .flag nv =>
+      match splitEq nv with
+      | (n, some v) =>
+        if n = ['e'] then (if isBoolLit v then parseArgs rest fl else none)
+        else match setFlag fl n v with
+          | some fl' => parseArgs rest fl'
+          | none => none
+      | (n, none) =>
+        if n = ['e'] then parseArgs rest fl
+        else match rest with
+          | [] => none
+          | v :: rest' =>
+            match setFlag fl n v with
+            | some fl' => parseArgs rest' fl'
+            | none => none
+
+/-- The package the generated files belong to: the explicit `-pkg`, otherwise
+the base name of the working directory. -/
+def cliPkg (cwdBase : Txt) (fl : CliFlags) : Txt := if fl.pkg.isEmpty then cwdBase else fl.pkg
+
+/-- `printer.NewGoRunConfig` (argv = `go run <main file> <args>`) with `Flags.Config`'s package. -/
+def cliConfig (cwdBase : Txt) (argv : List Txt) (fl : CliFlags) : Config := ⟨[], some argv, cliPkg cwdBase fl⟩
+
+/-- The stub file of a command line: none when `-stubs` was not given. -/
+def cliStubs (cwdBase : Txt) (argv : List Txt) (fl : CliFlags) (f : File) : Option (List SLine) :=
+  match fl.stubs with
+  | .none => none
+  | _ => some (printStubs (cliConfig cwdBase argv fl) f)
+
+def cliAsm (names : List (Nat × String)) (cwdBase : Txt) (argv : List Txt) (fl : CliFlags) (f : File) : Option (List SLine) :=
+  match fl.out with
+  | .none => none
+  | _ => some (printFile names (cliConfig cwdBase argv fl) f)
+
 end Avo.Print
